@@ -33,6 +33,28 @@ class Stream:
         return self.default(n, i)
 
 
+class ScriptStream(Stream):
+    """a fixed script for the first requests of a given length (answers as integers, little-endian), the default answer afterwards"""
+
+    def __init__(self, script, length, default, horizon=400):
+        super().__init__({}, default, lambda n: [None], horizon)
+        self.script = list(script)
+        self.length = length
+        self.used = 0
+
+    def answer(self, n):
+        i = len(self.requests)
+        self.requests.append(n)
+        if i >= self.horizon:
+            self.overrun = True
+            return b"\x01" * n
+        if n == self.length and self.used < len(self.script):
+            v = self.script[self.used]
+            self.used += 1
+            return v.to_bytes(n, "little")
+        return self.default(n, i)
+
+
 def explore(run, default, menu, bound, positions, root_filter=None, emit_root=True):
     """run(stream) executes the code under test once with stream.answer as its random source.
     Yields (choices, stream) for every execution."""
